@@ -12,6 +12,9 @@ theorem poolId_ne_pool : fieldPoolId ≠ fieldPool := by decide
 theorem poolId_ne_detailsKey (ty : DType) : fieldPoolId ≠ detailsKey ty := by cases ty <;> decide
 theorem pool_ne_capacities : fieldPool ≠ fieldCapacities := by decide
 theorem pool_ne_labels : fieldPool ≠ fieldLabels := by decide
+theorem poolId_ne_capacities : fieldPoolId ≠ fieldCapacities := by decide
+theorem poolId_ne_labels : fieldPoolId ≠ fieldLabels := by decide
+theorem capacities_ne_labels : fieldCapacities ≠ fieldLabels := by decide
 
 /-! ### well-formed delegation sets (the property's quantifier) -/
 
@@ -103,6 +106,9 @@ theorem decodeEntry_encPure (ops : DetailOps D) (ty : DType) (acc : Delegations 
   have k2 := poolId_ne_pool
   have k3 := pool_ne_capacities
   have k4 := pool_ne_labels
+  have c1 := poolId_ne_capacities
+  have c2 := poolId_ne_labels
+  have c3 := capacities_ne_labels
   cases fmt <;> simp only [WFDeleg] at h
   · obtain ⟨hp, hd⟩ := h
     cases pool with
@@ -118,8 +124,9 @@ theorem decodeEntry_encPure (ops : DetailOps D) (ty : DType) (acc : Delegations 
         | some j =>
           simp only [hx] at hd
           simp at hp
+          cases ty' <;>
           simp [decodeEntry, encPure, lookup, detailsDict, hx, k1, k1.symm, poolOf, hp, hd, mkDelegation, setDetails, hk,
-            addDelegation, hacc, hfresh, bind, Except.bind, pure, Except.pure]
+            addDelegation, hacc, hfresh, bind, Except.bind, pure, Except.pure, detailsKey, c1, c2, c3, c3.symm]
   · obtain ⟨hp, hd⟩ := h
     cases pool with
     | none => simp at hp
@@ -138,8 +145,9 @@ theorem decodeEntry_encPure (ops : DetailOps D) (ty : DType) (acc : Delegations 
       | none => simp [hx] at hd
       | some j =>
         simp only [hx] at hd
+        cases ty' <;>
         simp [decodeEntry, encPure, lookup, detailsDict, hx, k1, k1.symm, poolOf, hd, mkDelegation, setDetails, hk,
-          addDelegation, hacc, hfresh, bind, Except.bind, pure, Except.pure]
+          addDelegation, hacc, hfresh, bind, Except.bind, pure, Except.pure, detailsKey, c1, c2, c3, c3.symm]
 
 theorem decode_fold (ops : DetailOps D) (ty : DType) (items : List (Delegation D)) (acc : Delegations D)
     (hacc : acc.ty = ty) (hwf : ∀ d ∈ items, WFDeleg ops ty d)
